@@ -411,7 +411,18 @@ inline stim::Circuit gen_qec_circuit(Rng &rng, const QecOpts &o, Stats *st = nul
                 case 1: c.safe_append_u("Z_ERROR", {q, q2}, {prob()}); break;
                 case 2: c.safe_append_u("Y_ERROR", {q}, {prob()}); break;
                 case 3: c.safe_append_u("DEPOLARIZE1", {q}, {prob()}); break;
-                case 4: c.safe_append_u("DEPOLARIZE2", {q, q2}, {prob()}); break;
+                case 4: {
+                    c.safe_append_u("DEPOLARIZE2", {q, q2}, {prob()});
+                    // a correlated error with the symptoms of one of the channel's own two-qubit cases: the decomposition passes then
+                    // meet the same error twice (once from the channel's local decomposition, once as a stand-alone error)
+                    Rng es = rng.sub(783 + i);
+                    if (o.correlated && es.chance(0.5)) {
+                        auto pb = [&](uint64_t w) { return w == 0 ? TARGET_PAULI_X_BIT : w == 1 ? TARGET_PAULI_Z_BIT : (TARGET_PAULI_X_BIT | TARGET_PAULI_Z_BIT); };
+                        c.safe_append_u("E", {q | pb(es.below(3)), q2 | pb(es.below(3))}, {o.probs[es.below(o.probs.size())]});
+                        if (st) st->hit("qec.noise.E_twin_of_DEPOLARIZE2_case");
+                    }
+                    break;
+                }
                 case 5: { double a = prob() / 4, b = rng.chance(0.5) ? prob() / 4 : 0.0; c.safe_append_u("PAULI_CHANNEL_1", {q}, {a, b, rng.chance(0.5) ? prob() / 2 : 0.0}); break; }
                 case 6: { std::vector<double> a(15, 0.0); a[rng.below(15)] = prob() / 2; if (rng.chance(0.5)) a[rng.below(15)] = prob() / 4; c.safe_append_u("PAULI_CHANNEL_2", {q, q2}, a); break; }
                 case 7: {
